@@ -7,6 +7,7 @@ import CedarVerif.Lemmas.ExtDatetimeParse
 import CedarVerif.Lemmas.ExtDatetimeInv
 import CedarVerif.Lemmas.ExtIPReject
 import CedarVerif.Lemmas.JsonIpV4
+import CedarVerif.Lemmas.JsonIpV6
 /-
 C07 — Extension types (decimal, ip, datetime, duration) compute exact results.
 Property theorems about the mirrors in `Cedar/Ext.lean`.
@@ -14,8 +15,10 @@ Literals: decimal and duration — accepted language and exact value in both dir
 value on the two declarative forms and, conversely, only those forms are accepted (`datetime_parse_only_lang`);
 ip — the dotted quad with prefix written without leading zeros parses to the expected value (`ip_parse_v4_roundtrip`,
 `ip_parse_display_v4`), and the documented rejections hold in general (leading zero in an octet or in the prefix,
-prefix above the family's width, IPv4-in-IPv6 texts).  Not stated here: a both-directions characterisation of the
-accepted IPv6 texts (the canonical `Display` text of IPv6 values is treated in `Thm/C10.lean`, `extRoundTrip_ip…`).
+prefix above the family's width, IPv4-in-IPv6 texts); the canonical `Display` text of every IPv6 value that is not
+IPv4-mapped parses back (`ip_parse_display_v6`), that of an IPv4-mapped one is refused.  Not stated here: a
+both-directions characterisation of all accepted ip texts (non-canonical IPv6 spellings, octet > 255, wrong group counts
+are covered by evaluated instances and the correspondence stream only).
 -/
 namespace Cedar.C07
 open Cedar Cedar.Ext
@@ -541,6 +544,25 @@ theorem ip_parse_v4_roundtrip : FullStatement_ip_parse_v4_roundtrip := by
 theorem ip_parse_display_v4 (addr p : Nat) (ha : addr < 2 ^ 32) (hp : p ≤ 32) :
     IPAddr.parse (String.ofList (CJson.renderIp false addr p)) = some (.ipaddr false addr p) :=
   CJson.parse_renderIp_v4 addr p ha hp
+
+/-- the `Display` text of an IPv6 `IPAddr` value — `::` compression of the first longest run of ≥ 2 zero groups,
+    lower-case hex groups without leading zeros, `/prefix` — parses back to the same (family, address, prefix), for
+    every 128-bit address that is not IPv4-mapped and prefix ≤ 128 (`Lemmas/JsonIpV6*.lean`) -/
+theorem ip_parse_display_v6 (addr p : Nat) (ha : addr < 2 ^ 128) (hp : p ≤ 128) (hm : CJson.isV4Mapped addr = false) :
+    IPAddr.parse (String.ofList (CJson.renderIp true addr p)) = some (.ipaddr true addr p) :=
+  CJson.parse_renderIp_v6 addr p ha hp hm
+
+/-- the excluded class: the `Display` text of an IPv4-mapped IPv6 address (`::ffff:a.b.c.d/p`) is refused by `ip()` -/
+theorem ip_parse_display_v6_mapped_rejected (addr p : Nat) (hm : CJson.isV4Mapped addr = true) :
+    IPAddr.parse (String.ofList (CJson.renderIp true addr p)) = none :=
+  CJson.parse_renderIp_v6_mapped addr p hm
+
+example : String.ofList (CJson.renderIp true (0x20010db8 * 2 ^ 96 + 1) 64) = "2001:db8::1/64" ∧
+    IPAddr.parse "2001:db8::1/64" = some (.ipaddr true (0x20010db8 * 2 ^ 96 + 1) 64) :=
+  ⟨by decide +kernel, by
+    have := ip_parse_display_v6 (0x20010db8 * 2 ^ 96 + 1) 64 (by decide) (by decide) (by decide +kernel)
+    have e : String.ofList (CJson.renderIp true (0x20010db8 * 2 ^ 96 + 1) 64) = "2001:db8::1/64" := by decide +kernel
+    rwa [e] at this⟩
 
 example : IPAddr.parse "192.168.0.1/24" = some (.ipaddr false (v4addr 192 168 0 1) 24) :=
   ip_parse_v4_roundtrip 192 168 0 1 24 (by decide) (by decide) (by decide) (by decide) (by decide)
